@@ -88,6 +88,10 @@ def apply(src, pt):
     n = nodes[idx]
     if id(n) in skip:
         return None
+    # functions no property speaks about and the model leaves out: string renderings, the unused match() helpers of the header parsers
+    for fn in nodes:
+        if isinstance(fn, ast.FunctionDef) and fn.name in ('__repr__', '__str__', 'match') and any(m is n for m in ast.walk(fn)):
+            return None
     if kind == 'cmp':
         n.ops = [CMP[type(n.ops[0])]()]
     elif kind == 'bin':
